@@ -27,6 +27,11 @@ CLAIMS = {
         technique='differential symbolic execution (CrossHair/z3): compiled render function vs reference try/except-per-element semantics; failing evaluation points symbolic',
         text='Per enumerated on-error template the solver decides output and handler-call sequence for every assignment of {ok, raises} to the evaluation points.',
         note=G_NOTE),
+    'C02': dict(
+        engine='X', level='model_checking', design_ref='DESIGN.md 4 C02',
+        technique='symbolic execution (CrossHair/z3) of the compiled render function with the inserted value as k symbolic code points; structural escape oracle',
+        text='Per insertion site and value kind the solver decides over all code points (k <= 3 quick, <= 4-5 thorough) that the rendered region contains no raw markup/quote and un-escapes to the value.',
+        note='Trusted: CrossHair string model + chsym plugin (str subclasses modelled as typed symbolic strings), the structural oracle; programs (sites) are enumerated.'),
     'C03': dict(
         engine='X+Z', level='model_checking', design_ref='DESIGN.md 4 C03',
         technique='symbolic execution (CrossHair/z3) of iter_xml/match_tag/emitters on shape-enumerated character-symbolic strings; z3 regex inclusion from the live lexer pattern',
